@@ -222,6 +222,9 @@ def parse_one_request(data: bytes, pos: int, limits: dict):
         if ver == (1, 0):
             raise Dc("te_on_http10")
         parts_ = _split_list(tes[0])
+        if all(x == b"" for x in parts_):
+            # the field is present and names no coding at all: chunked is not the final coding (RFC 9112 6.3-4.3)
+            raise Rej("te_not_single_final_chunked")
         if any(x == b"" for x in parts_):
             raise Dc("empty_te_list_element")
         lowp = [x.lower() for x in parts_]
